@@ -252,6 +252,7 @@ def run(ctx):
     d7_backing_fresh(db, rep)
     d8_owned_fields_released(db, rep)
     d9_region_fields_set(db, rep)
+    d10_views_same_pages(db, rep)
     __import__("importlib").import_module("rules.c08").d12_no_touch_after_chunk_release(db, rep, "D10-NO-TOUCH-AFTER-RELEASE")
 
     # ---- D3 ------------------------------------------------------------------
@@ -574,4 +575,75 @@ def d9_region_fields_set(db, rep, rule="D9-REGION-FIELDS-SET"):
                   "nothing ever fits, each compile maps and registers one more region and silently runs emulated" % (f.name, ", region->".join(missing)), line=f.line)
     if n < 2:
         raise AnalysisBroken("only %d code-memory methods found in orccodemem.c" % n)
+    return n
+
+
+def d10_views_same_pages(db, rep, rule="D10-VIEWS-SAME-PAGES"):
+    """D10: the allocator copies machine code through region->write_ptr and hands out region->exec_ptr + the same offset as the
+    entry point (D2).  That is the emitted code only if the two pointers are views of the SAME pages.  In every
+    orc_code_region_allocate_codemem_* method the two fields must therefore be (a) the same pointer (one assigned from the
+    other, or both from one value), or (b) two mmap() results of the same file descriptor and offset, both MAP_SHARED and
+    neither anonymous.  Two private or anonymous mappings are unrelated memory: the bytes written through one never appear
+    in the other, the entry point is a block of zeroes."""
+    tu = db.tu("orccodemem")
+    MAP_SHARED, MAP_ANON = 0x01, 0x20
+    n = 0
+    for f in tu.main_functions():
+        if not f.name.startswith("orc_code_region_allocate_codemem_"):
+            continue
+        reg = [p_["name"] for p_ in f.params if "OrcCodeRegion" in (p_.get("ty") or "")]
+        if not reg:
+            continue
+        sd = single_defs(f)
+
+        def resolve(e):
+            e = strip_casts(e)
+            k = 0
+            while e is not None and e.k == "DeclRefExpr" and e.name in sd and k < 4:
+                e = strip_casts(sd[e.name])
+                k += 1
+            return e
+        src = {}
+        for fld in ("exec_ptr", "write_ptr"):
+            path = "%s->%s" % (reg[0], fld)
+            src[fld] = [resolve(e.c[1]) for e in f.walk() if e.k == "BinaryOperator" and e.op == "=" and access_path(e.c[0]) == path]
+        if not src["exec_ptr"] and not src["write_ptr"]:
+            continue                    # a dispatcher: judged through the methods it calls
+        n += 1
+        rep.saw(f)
+        why = None
+        if len(src["exec_ptr"]) != 1 or len(src["write_ptr"]) != 1:
+            why = "assigns region->exec_ptr %d times and region->write_ptr %d times" % (len(src["exec_ptr"]), len(src["write_ptr"]))
+        else:
+            x, w = src["exec_ptr"][0], src["write_ptr"][0]
+            px, pw = access_path(x), access_path(w)
+            same_ptr = (pw is not None and pw == "%s->exec_ptr" % reg[0]) or (px is not None and px == "%s->write_ptr" % reg[0]) or \
+                       (x is not None and w is not None and x.id == w.id)
+            if not same_ptr:
+                if x is not None and w is not None and x.k == "CallExpr" and w.k == "CallExpr" and x.name == "mmap" and w.name == "mmap" and \
+                        len(x.args()) == 6 and len(w.args()) == 6:
+                    fx, fw = strip_casts(x.args()[3]).v, strip_casts(w.args()[3]).v
+                    dx, dw = access_path(strip_casts(x.args()[4])), access_path(strip_casts(w.args()[4]))
+                    ox, ow = strip_casts(x.args()[5]).v, strip_casts(w.args()[5]).v
+                    if fx is None or fw is None or not (fx & MAP_SHARED) or not (fw & MAP_SHARED) or (fx & MAP_ANON) or (fw & MAP_ANON):
+                        why = "maps the two views with flags %s and %s: both must be MAP_SHARED mappings of a file (a private or anonymous mapping is memory of its own)" % (
+                            "?" if fx is None else hex(fx), "?" if fw is None else hex(fw))
+                    elif dx is None or dx != dw:
+                        why = "maps the two views from different descriptors (%s, %s)" % (unparse(x.args()[4]), unparse(w.args()[4]))
+                    elif ox is None or ox != ow:
+                        why = "maps the two views at different file offsets"
+                    else:
+                        fdw = [e for e in f.walk() if e.k == "BinaryOperator" and e.op == "=" and access_path(e.c[0]) == dx and
+                               f.dominates(x, e) and f.dominates(e, w)]
+                        if fdw:
+                            why = "reassigns %s between the two mmap() calls (line %s)" % (dx, fdw[0].line)
+                else:
+                    why = "takes region->exec_ptr from `%s` and region->write_ptr from `%s`, which are neither one pointer nor two shared mappings of one file" % (
+                        unparse(x)[:50] if x is not None else "?", unparse(w)[:50] if w is not None else "?")
+        rep.check(why is None, rule, where(f), f.name,
+                  "write_ptr and exec_ptr are the same pointer, or MAP_SHARED mappings of the same descriptor and offset",
+                  "%s %s: code is copied through write_ptr and executed through exec_ptr + the same offset, so the entry point would not hold the "
+                  "emitted bytes" % (f.name, why), line=f.line)
+    if n < 2:
+        raise AnalysisBroken("only %d code-memory methods assigning the two views found" % n)
     return n
